@@ -12,7 +12,7 @@ var logic string
 func Family() *rx.Family {
 	return &rx.Family{
 		Name: "s4", Path: "gno.land/r/verif/s4", Logic: logic,
-		Ops: "abcefjhikdgl",
+		Ops: "aecjbfhikdgl",
 		Desc: map[byte]string{'a': "m[a].V++", 'b': "x.V+=10", 'c': "delete(m,b)", 'd': "m[d]=y", 'e': "m[a]=&T{fresh}", 'f': "m[b]=x",
 			'g': "x=m[c]", 'h': "m2=m", 'i': "m=map{c:y}", 'j': "range m: v.V+=1000", 'k': "delete(m2,a)", 'l': "y=nil"},
 		Reset: reset, Op: op, Dump: dump,
